@@ -8,6 +8,7 @@ use crate::parser::ast::{
     BinaryOperatorKind, BinaryOperatorSymbol, Expression, Expression_, ToplevelItem,
 };
 use crate::parser::diagnostics::ErrorMessage;
+use crate::parser::position::Position;
 use crate::parser::visitor::Visitor;
 use crate::{msgcode, msgtext};
 
@@ -38,14 +39,14 @@ fn is_pure_(expr: &Expression_) -> bool {
 /// An operand in a boolean chain, paired with the offset at which a
 /// deletion should start if this operand turns out to be a duplicate.
 ///
-/// `delete_from` is the end offset of the operand's left sibling at the
-/// binary operator node, so deleting from there to the end of the
+/// `delete_from` is the position of the operand's left sibling at the
+/// binary operator node, so deleting from its end to the end of the
 /// operand removes ` <op> operand` without crossing a parenthesis
 /// boundary. It is `None` for the leftmost operand, which has no left
 /// sibling.
 struct Operand<'a> {
     expr: &'a Expression,
-    delete_from: Option<usize>,
+    delete_from: Option<&'a Position>,
 }
 
 /// Collect operands from a boolean chain, returning them as references
@@ -59,7 +60,7 @@ fn collect_operands<'a>(expr: &'a Expression, op_sym: &BinaryOperatorSymbol) -> 
 fn collect_operands_<'a>(
     expr: &'a Expression,
     op_sym: &BinaryOperatorSymbol,
-    delete_from: Option<usize>,
+    delete_from: Option<&'a Position>,
     result: &mut Vec<Operand<'a>>,
 ) {
     match &expr.expr_ {
@@ -68,7 +69,7 @@ fn collect_operands_<'a>(
             // The right operand's left sibling is the whole left
             // subtree, so deletions start at its end (after any closing
             // parenthesis), not at the previous flattened operand.
-            collect_operands_(rhs, op_sym, Some(lhs.position.end_offset), result);
+            collect_operands_(rhs, op_sym, Some(&lhs.position), result);
         }
         Expression_::Parentheses(paren) => {
             // The leftmost operand inside the parentheses has no left
@@ -113,7 +114,9 @@ impl Visitor for RepeatedBoolVisitor {
                             // sibling to the end of this operand.
                             let fixes = if let Some(delete_from) = operand.delete_from {
                                 let mut fix_pos = expr.position.clone();
-                                fix_pos.start_offset = delete_from;
+                                fix_pos.start_offset = delete_from.end_offset;
+                                fix_pos.line_number = delete_from.end_line_number;
+                                fix_pos.column = delete_from.end_column;
                                 vec![Autofix {
                                     description: "Remove this duplicate".to_owned(),
                                     position: fix_pos,
